@@ -117,11 +117,14 @@ func cmdCheck(args []string) (code int) {
 	if *tier == "thorough" {
 		st := runSelfTests(*prop, c)
 		extra["selftest"] = st
-		if st != nil && st.Failed > 0 {
+		code := c.Finish(start, extra)
+		// a violation on the tree is reported first; a self-test failure on a
+		// clean tree is a defect of the machinery (exit 2, no VIOLATION line)
+		if code == 0 && st != nil && st.Failed > 0 {
 			fmt.Fprintf(os.Stderr, "ivq: checker self-test failed for %s (%d of %d variants): machinery defect\n", *prop, st.Failed, st.Run)
-			c.Finish(start, extra)
 			return 2
 		}
+		return code
 	}
 	return c.Finish(start, extra)
 }
